@@ -1870,6 +1870,11 @@ func (c *Client) doSetup(
 		header["KeyMgmt"] = enc
 	}
 
+	// Media.URL() returns a nil URL when the control attribute cannot be parsed.
+	if mediaURL == nil {
+		return nil, fmt.Errorf("invalid media URL")
+	}
+
 	res, err := c.do(&base.Request{
 		Method: base.Setup,
 		URL:    mediaURL,
